@@ -15,6 +15,7 @@ import (
 	"sort"
 	"strconv"
 	"strings"
+	"time"
 )
 
 // ---- description of a case (what the generator draws; rendered to HCL for the real parser)
@@ -36,7 +37,8 @@ type c03Stanza struct {
 	MinTTL     int // seconds, 0 = not set
 	MaxTTL     int // seconds, 0 = not set
 	Pagination int // 0 = not set
-	Expiry     int // 0 none, 1 far in the past, 2 far in the future
+	Expiry     int // 0 none, 1 far in the past, 2 far in the future, 3 lapses between parsing the policy and building the ACL
+	ExpiryAt   time.Time
 	Comment    bool
 }
 
@@ -123,6 +125,8 @@ func (p c03Policy) HCL() string {
 			sb.WriteString("  expiration = \"2001-01-02T15:04:05Z\"\n")
 		case 2:
 			sb.WriteString("  expiration = \"2999-01-02T15:04:05Z\"\n")
+		case 3:
+			fmt.Fprintf(&sb, "  expiration = %q\n", s.ExpiryAt.UTC().Format(time.RFC3339Nano))
 		}
 		if s.Comment {
 			sb.WriteString("  comment = \"see TRACKER-12345\"\n")
@@ -148,14 +152,14 @@ type c03Ref struct {
 	V   c03Verdict
 	Why string // which rule decided / why unclear
 	// pattern selection
-	PatternClear bool   // always true since the staged fallback order is pinned
+	PatternClear  bool   // always true since the staged fallback order is pinned
 	FallbackOrder string // non-empty: another consultation order of the list/scan fallback would pick another pattern
-	Pattern      string // the winning (namespace-qualified) pattern, "" = none matches
-	NMatch       int    // distinct patterns matching the request path (or, for list/scan, the path without its trailing slash)
-	NGroup       int    // stanzas merged for the winning pattern
-	Deny         bool
-	Caps         map[string]bool
-	Constraint   bool // a parameter / pagination / wrapping-TTL rule decided, or rewrote limit
+	Pattern       string // the winning (namespace-qualified) pattern, "" = none matches
+	NMatch        int    // distinct patterns matching the request path (or, for list/scan, the path without its trailing slash)
+	NGroup        int    // stanzas merged for the winning pattern
+	Deny          bool
+	Caps          map[string]bool
+	Constraint    bool // a parameter / pagination / wrapping-TTL rule decided, or rewrote limit
 	// expectation on req.Data["limit"] after an allowed list/scan: 0 none, 1 must equal LimitEq, 2 unchanged
 	LimitMode int
 	LimitEq   string
@@ -173,7 +177,7 @@ func c03ActiveRules(pols []c03Policy) []c03Rule {
 	for pi := range pols {
 		for si := range pols[pi].Stanzas {
 			st := &pols[pi].Stanzas[si]
-			if st.Expiry == 1 {
+			if st.Expiry == 1 || st.Expiry == 3 {
 				continue // "automatically remove access at a point in time"
 			}
 			out = append(out, c03Rule{full: pols[pi].NS + st.Pattern, st: st})
